@@ -372,8 +372,20 @@ fn check_text_templates(acc: &mut Stats) {
         let ref_bytes = match compile(&with_extra(&erased_text), MAIN, true) {
             Outcome::Ok(b) => b,
             other => {
-                eprintln!("MACHINERY: C08 text template {} does not compile un-annotated: {}", name, other.short());
-                std::process::exit(2);
+                // not accepted without annotations: a violation if the fully annotated text is accepted, else not this
+                // property's business
+                let full = render(u32::MAX);
+                if compile(&with_extra(&full), MAIN, true).is_ok() {
+                    let mut files = serde_json::Map::new();
+                    for (k, v) in with_extra(&full) {
+                        files.insert(k, json!(v));
+                    }
+                    acc.outcome("un-annotated-variant-rejected");
+                    acc.fail(Failure { sig: "annotated-variant-rejected".into(), preds: vec![format!("base:text-template:{}", name)], detail: format!("text template {}: accepted with every annotation, rejected with none ({})\n{}", name, other.short(), erased_text), case: json!({"engine": "c08", "files": files, "erased": erased_text}), size: erased_text.len() });
+                } else {
+                    acc.count("text-template-rejected-in-both-forms", 1);
+                }
+                continue;
             }
         };
         acc.states += 1;
